@@ -45,6 +45,22 @@ func main() {
 	}
 	seed, _ := strconv.Atoi(os.Getenv("VERIF_SEED"))
 
+	if *property == "ALL" {
+		// developer mode (self-test of neutral patches): one load of the program, every property's rules in turn, each with
+		// its own report and evidence file under root; exit 1 if any property fails. Registered commands never use it.
+		p, err := prog.Load(repo, "")
+		if err != nil {
+			fmt.Println("VIOLATION property=ALL replay=- load error:", err)
+			os.Exit(1)
+		}
+		code := 0
+		for _, id := range rules.IDs() {
+			if c := runLoaded(p, root, id, *tier, seed); c != 0 {
+				code = 1
+			}
+		}
+		os.Exit(code)
+	}
 	if *property != "" {
 		os.Exit(runProperty(repo, root, *property, *tier, seed, *replay))
 	}
@@ -90,6 +106,28 @@ func main() {
 		})
 		fmt.Printf("paths=%d pruned=%d overflow=%v\n", w.Paths, w.Pruned, w.Overflow)
 	}
+}
+
+// runLoaded evaluates one property on an already loaded program (quick tier semantics; developer mode).
+func runLoaded(p *prog.Program, root, id, tier string, seed int) (code int) {
+	prop := rules.Registry[id]
+	rep := oblig.New(id, tier, seed)
+	rep.Explanation = prop.Explanation
+	rep.NotDecided = prop.NotDecided
+	defer func() {
+		if r := recover(); r != nil {
+			rep.Unknown("meta", "checker-panic", "-", fmt.Sprintf("checker panicked: %v\n%s", r, debug.Stack()))
+			code = rep.Finish(root)
+			if code == 0 {
+				code = 1
+			}
+		}
+	}()
+	if len(p.Outside) > 2 {
+		rep.Unknown("meta", "packages-outside-main", "-", fmt.Sprintf("module packages not imported by main (would escape analysis): %v", p.Outside))
+	}
+	prop.Run(&rules.Ctx{P: p, R: rep, Tier: tier})
+	return rep.Finish(root)
 }
 
 func runProperty(repo, root, id, tier string, seed int, replay string) (code int) {
